@@ -65,3 +65,62 @@ theorem C15_status (f : Flow) (status : Nat) (hst : f.status = some status) :
 
 example : tableSpec .post 307 = none ∧ tableSpec .post 302 = some .get ∧ tableSpec .head 301 = some .head := by
   simp [tableSpec]
+
+/-! ## Chains of redirects: the table applied hop after hop -/
+
+/-- the method of the request after a chain of followed redirects with the given statuses
+    (`none`: some hop is not followed) — the table applied hop after hop -/
+def chainMethod : Method → List Nat → Option Method
+  | m, [] => some m
+  | m, s :: ss => match newMethodOf m s with
+    | none => none
+    | some m' => chainMethod m' ss
+
+theorem newMethodOf_orig_or_get (m m' : Method) (s : Nat) (h : newMethodOf m s = some m') : m' = m ∨ m' = .get := by
+  unfold newMethodOf at h
+  repeat' split at h
+  all_goals simp_all
+
+theorem newMethodOf_get (s : Nat) : newMethodOf .get s = some .get := by
+  unfold newMethodOf; split <;> simp [Method.needBody]
+
+/-- **C15 (chains: GET absorbs).** Once a request is a GET it stays a GET over every further chain of
+    redirects, whatever the statuses, and every hop is followed. -/
+theorem C15_chain_get (ss : List Nat) : chainMethod .get ss = some .get := by
+  induction ss with
+  | nil => rfl
+  | cons s ss ih => simp only [chainMethod, newMethodOf_get]; exact ih
+
+/-- **C15 (chains: original or GET).** Over any chain of redirects of any length and any statuses the
+    method on the wire is the caller's own method or GET — the table never invents a third method. -/
+theorem C15_chain_orig_or_get (ss : List Nat) : ∀ (m m' : Method), chainMethod m ss = some m' → m' = m ∨ m' = .get := by
+  induction ss with
+  | nil => intro m m' h; simp [chainMethod] at h; exact Or.inl h.symm
+  | cons s ss ih =>
+    intro m m' h
+    simp only [chainMethod] at h
+    split at h
+    · simp at h
+    · rename_i m1 h1
+      rcases newMethodOf_orig_or_get m m1 s h1 with e | e
+      · subst e; exact ih _ _ h
+      · subst e; rw [C15_chain_get] at h; simp at h; exact Or.inr h.symm
+
+/-- **C15 (chains: a body method is never replayed).** A request whose method carries a body (POST, PUT,
+    PATCH) — or a DELETE — that is followed through at least one redirect continues as GET, for every
+    chain of statuses: no redirect ever makes the client re-issue such a method. -/
+theorem C15_chain_unsafe_to_get (m m' : Method) (s : Nat) (ss : List Nat)
+    (hm : m.needBody = true ∨ m = .delete) (h : chainMethod m (s :: ss) = some m') : m' = .get := by
+  simp only [chainMethod] at h
+  split at h
+  · simp at h
+  · rename_i m1 h1
+    have : m1 = .get := by
+      cases m <;> simp [Method.needBody] at hm <;>
+        (unfold newMethodOf at h1; simp [Method.needBody] at h1; (try split at h1) <;> simp_all)
+    subst this; rw [C15_chain_get] at h; simp at h; exact h.symm
+
+/-- non-vacuity: a POST redirected 302 then 307 then 301 ends as GET; a POST at 307 is not followed -/
+example : chainMethod .post [302, 307, 301] = some .get := by decide
+example : chainMethod .post [307] = none := by decide
+example : chainMethod .options [307, 308] = some .options := by decide
